@@ -145,26 +145,26 @@ def setA (key value : Bytes) (keep : Bool) (out : Out) : DsStr.S → Int → Act
     ops := [Api.opSet key value keep], out := out }
 
 theorem set_eq (s : MState) (now : Int) (k value : Bytes) (keep : Bool) :
-    Api.set s now k value keep = writeCmd (some .strNil) .unit (actOn strOf (setA k value keep .unit)) s now k := by
+    Api.set s now k value keep = writeCmd (some (.str [])) .unit (actOn strOf (setA k value keep .unit)) s now k := by
   unfold Api.set writeCmd
-  cases keep <;> create_eq Val.strNil, strOf [asStr_eq, setA]
+  cases keep <;> create_eq (Val.str []), strOf [asStr_eq, setA]
 
 def setOptA (key : Bytes) (value : DsStr.S) (keep : Bool) : DsStr.S → Int → Act := fun _ _ =>
   { val := some (Api.strVal value), exp := if keep then none else some 0, sig := true,
     ops := [Api.opSet key (DsStr.bytes value) keep], out := .unit }
 
 theorem setOpt_eq (s : MState) (now : Int) (k : Bytes) (value : DsStr.S) (keep : Bool) :
-    Api.setOpt s now k value keep = writeCmd (some .strNil) .unit (actOn strOf (setOptA k value keep)) s now k := by
+    Api.setOpt s now k value keep = writeCmd (some (.str [])) .unit (actOn strOf (setOptA k value keep)) s now k := by
   unfold Api.setOpt writeCmd
-  cases keep <;> create_eq Val.strNil, strOf [asStr_eq, setOptA]
+  cases keep <;> create_eq (Val.str []), strOf [asStr_eq, setOptA]
 
 def getSetA (key value : Bytes) : DsStr.S → Int → Act := fun old _ =>
   { val := some (.str value), exp := some 0, sig := true, ops := [Api.opSet key value false], out := .bytes old }
 
 theorem getSet_eq (s : MState) (now : Int) (k value : Bytes) :
-    Api.getSet s now k value = writeCmd (some .strNil) .unit (actOn strOf (getSetA k value)) s now k := by
+    Api.getSet s now k value = writeCmd (some (.str [])) .unit (actOn strOf (getSetA k value)) s now k := by
   unfold Api.getSet writeCmd
-  create_eq Val.strNil, strOf [asStr_eq, getSetA]
+  create_eq (Val.str []), strOf [asStr_eq, getSetA]
 
 theorem setXX_eq (s : MState) (now : Int) (k value : Bytes) (keep : Bool) :
     Api.setXX s now k value keep =
@@ -183,9 +183,9 @@ def addIntA (key : Bytes) (delta : Int) (neg : Bool) : DsStr.S → Int → Act :
       out := .many [.int n, .err false] }
 
 theorem addInt_eq (s : MState) (now : Int) (k : Bytes) (delta : Int) (neg sw : Bool) :
-    Api.addInt s now k delta neg sw = writeCmd (some .strNil) .unit (actOn strOf (addIntA k delta neg)) s now k := by
+    Api.addInt s now k delta neg sw = writeCmd (some (.str [])) .unit (actOn strOf (addIntA k delta neg)) s now k := by
   unfold Api.addInt writeCmd
-  create_eq Val.strNil, strOf [asStr_eq, addIntA]
+  create_eq (Val.str []), strOf [asStr_eq, addIntA]
 
 def setBitA (key : Bytes) (offset : Int) (value : Bool) : DsStr.S → Int → Act := fun v _ =>
   { val := some (Api.strVal (DsStr.setBit v offset value).1), sig := true,
@@ -193,9 +193,9 @@ def setBitA (key : Bytes) (offset : Int) (value : Bool) : DsStr.S → Int → Ac
     out := .int (DsStr.setBit v offset value).2 }
 
 theorem setBit_eq (s : MState) (now : Int) (k : Bytes) (offset : Int) (value : Bool) :
-    Api.setBit s now k offset value = writeCmd (some .strNil) .unit (actOn strOf (setBitA k offset value)) s now k := by
+    Api.setBit s now k offset value = writeCmd (some (.str [])) .unit (actOn strOf (setBitA k offset value)) s now k := by
   unfold Api.setBit writeCmd
-  create_eq Val.strNil, strOf [asStr_eq, setBitA]
+  create_eq (Val.str []), strOf [asStr_eq, setBitA]
 
 def appendA (key value : Bytes) : DsStr.S → Int → Act := fun v _ =>
   { val := some (Api.strVal (DsStr.append v value).1), sig := true,
@@ -203,9 +203,9 @@ def appendA (key value : Bytes) : DsStr.S → Int → Act := fun v _ =>
     out := .int (DsStr.append v value).2 }
 
 theorem append_eq (s : MState) (now : Int) (k value : Bytes) :
-    Api.append s now k value = writeCmd (some .strNil) .unit (actOn strOf (appendA k value)) s now k := by
+    Api.append s now k value = writeCmd (some (.str [])) .unit (actOn strOf (appendA k value)) s now k := by
   unfold Api.append writeCmd
-  create_eq Val.strNil, strOf [asStr_eq, appendA]
+  create_eq (Val.str []), strOf [asStr_eq, appendA]
 
 def setRangeA (key : Bytes) (offset : Int) (value : Bytes) : DsStr.S → Int → Act := fun v _ =>
   match DsStr.setRange v offset value with
@@ -215,9 +215,9 @@ def setRangeA (key : Bytes) (offset : Int) (value : Bytes) : DsStr.S → Int →
 
 theorem setRange_eq (s : MState) (now : Int) (k : Bytes) (offset : Int) (value : Bytes) :
     Api.setRange s now k offset value =
-      writeCmd (some .strNil) .unit (actOn strOf (setRangeA k offset value)) s now k := by
+      writeCmd (some (.str [])) .unit (actOn strOf (setRangeA k offset value)) s now k := by
   unfold Api.setRange writeCmd
-  create_eq Val.strNil, strOf [asStr_eq, setRangeA]
+  create_eq (Val.str []), strOf [asStr_eq, setRangeA]
 
 /-! SETEX / PSETEX: the feed record carries the deadline just written -/
 
@@ -251,10 +251,10 @@ theorem setEx_tail (s1 : MState) (k value : Bytes) (e : Int) (h : valOf s1 k ≠
 
 theorem setEX_eq (s : MState) (now : Int) (k value : Bytes) (sec : Int) :
     Api.setEX s now k value sec =
-      writeCmd (some .strNil) .unit (actOn strOf (setExA k value (Spec.deadlineSec now sec))) s now k := by
+      writeCmd (some (.str [])) .unit (actOn strOf (setExA k value (Spec.deadlineSec now sec))) s now k := by
   unfold Api.setEX writeCmd Spec.deadlineSec
-  have hok := writeKey_some_ok s now k .strNil
-  cases hw : writeKey s now k (some .strNil) with
+  have hok := writeKey_some_ok s now k (.str [])
+  cases hw : writeKey s now k (some (.str [])) with
   | mk s1 ok =>
     rw [hw] at hok
     simp only at hok
@@ -268,10 +268,10 @@ theorem setEX_eq (s : MState) (now : Int) (k value : Bytes) (sec : Int) :
 
 theorem setPX_eq (s : MState) (now : Int) (k value : Bytes) (ms : Int) :
     Api.setPX s now k value ms =
-      writeCmd (some .strNil) .unit (actOn strOf (setExA k value (Spec.deadlineMs now ms))) s now k := by
+      writeCmd (some (.str [])) .unit (actOn strOf (setExA k value (Spec.deadlineMs now ms))) s now k := by
   unfold Api.setPX writeCmd Spec.deadlineMs
-  have hok := writeKey_some_ok s now k .strNil
-  cases hw : writeKey s now k (some .strNil) with
+  have hok := writeKey_some_ok s now k (.str [])
+  cases hw : writeKey s now k (some (.str [])) with
   | mk s1 ok =>
     rw [hw] at hok
     simp only at hok
